@@ -16,6 +16,15 @@ Case ops (model side: lean/Driver/C02.lean, digests computed with the Lean SHA-2
                                 verdict being `a.serialize() == b.serialize()`; a mutable `a` is then overwritten field
                                 by field with `b` *after* its hashes were taken and must report b's identifiers
                                                                                                         vs  Model.objEq
+  c02.objcross <kA> <a> <kB> <b>  == / != between objects of two different class families (equal serialisations
+                                included): Serializable.__eq__ answers NotImplemented, so False       vs  Model.objEq
+  c02.pyhash <kind> <obj>       hash() of every construction of the object; the model runs objPyHashWith / pyHashWith
+                                with an injective stand-in and replies the byte string it hashes; agreement =
+                                hash(obj) == hash(<those bytes>) in this interpreter                  vs  Model
+  c02.ids <tx> mx               mutable transaction whose fields were assigned after construction (values the
+                                constructors refuse; outside the property's domain): both sides must raise — the
+                                exception family (ValueError from the stripped copy's constructors in the model,
+                                Model.Ident.ctorValid) is reported in evidence but not compared
 Each generated transaction is paired with alternative witness assignments (none, all-empty stacks, one non-empty
 stack, all non-empty, altered content); the model's txid being provably witness-independent, agreement on every
 member of the family is agreement on the relation.
@@ -114,6 +123,7 @@ class C02(Prop):
         'wtxid_eq_txid_of_no_witness', 'preimages_differ', 'wtxid_ne_txid_of_injOn', 'wtxid_ne_txid_iff',
         'blockhash_eq_spec', 'blockhash_indep_vtx', 'blockhash_eq_headerhash', 'headerhash_eq_spec',
         'eq_iff_ser_eq', 'eq_iff_fields_eq', 'hash_eq_of_ser_eq', 'ids_of_equal_fields',
+        'txid_witness_indep_entries', 'objEq_same_family', 'objEq_cross_family',
         'objEq_iff_ser_eq', 'objEq_false_of_ser_ne', 'objHash_eq_of_ser_eq', 'obj_getHash_eq', 'obj_class_indep',
         'obj_ser_eq_spec')]
     anchors = [('bitcoin/core/__init__.py', 'CTransaction.GetTxid'),
@@ -187,6 +197,39 @@ class C02(Prop):
                     yield mk('c02.objpair', kind, x, y, tag='pair-sibling')
                     if big:
                         yield mk('c02.objpair', kind, y, x, tag='pair-sibling')
+            comps = components(g, t)
+            # (the stand-in hash of the model is a big-number computation: objects up to 2 kB only)
+            for kind, x, alts in comps[:4] if not big else comps:
+                if len(x) <= 4000:
+                    yield mk('c02.pyhash', kind, x, tag='pyhash')
+            if len(texts[0]) <= 4000:
+                yield mk('c02.pyhash', 'tx', rng.choice([x for x in texts if len(x) <= 4200]), tag='pyhash')
+            # different class families, including pairs with identical serialisations
+            st = [c for c in comps if c[0] in ('swit', 'inwit')]
+            for kind, x, _ in st[:2]:
+                other = 'inwit' if kind == 'swit' else 'swit'
+                yield mk('c02.objcross', kind, x, other, x, tag='cross-same-bytes')
+                yield mk('c02.objcross', 'wit', x, kind, x, tag='cross-same-bytes')     # CTxWitness of that one stack
+            ka, xa, _ = rng.choice(comps)
+            kb, xb, _ = rng.choice(comps)
+            if ka != kb:
+                yield mk('c02.objcross', ka, xa, kb, xb, tag='cross')
+            yield mk('c02.objcross', 'tx', texts[0], 'wit', show_wit(t['wit'] or []), tag='cross')
+            # GetTxid rebuilds the stripped copy through the validating constructors
+            if rng.random() < (1.0 if big else 0.35):
+                bad = dict(t)
+                k = rng.randrange(4)
+                h, n, sc, q = t['vin'][-1]
+                if k == 0:
+                    bad['vin'] = t['vin'][:-1] + [(h, n, sc, 2 ** 32)]
+                elif k == 1:
+                    bad['vin'] = t['vin'][:-1] + [(h, 2 ** 32, sc, q)]
+                elif k == 2:
+                    bad['vin'] = t['vin'][:-1] + [(h[:31], n, sc, q)]
+                else:
+                    bad['lock'] = 2 ** 32
+                for w in (fam[1]['wit'], fam[2]['wit'], None):
+                    yield mk('c02.ids', txfmt.show_tx(dict(bad, wit=w)), 'mx', tag='ctor-valueerr')
             yield mk('c02.obj', 'tx', texts[0], tag='obj')
             yield mk('c02.objpair', 'tx', texts[0], rng.choice(texts), tag='pair-family')
             # a sibling differing in exactly one non-witness field
@@ -225,6 +268,12 @@ class C02(Prop):
             # same header, other transactions: unequal objects with the same GetHash()
             yield mk('c02.objpair', 'blk', s, txfmt.show_block(b2), tag='pair-other-vtx')
             yield mk('c02.objpair', 'blk', s, s, tag='pair-same')
+            # CBlock derives from CBlockHeader: compared by serialisation (never equal), both directions
+            yield mk('c02.objcross', 'hdr', h, 'blk', txfmt.show_block(dict(hdr=b['hdr'], vtx=[])), tag='cross-hdr-blk')
+            yield mk('c02.objcross', 'blk', s, 'hdr', h, tag='cross-hdr-blk')
+            yield mk('c02.pyhash', 'hdr', h, tag='pyhash')
+            if len(s) <= 4000:
+                yield mk('c02.pyhash', 'blk', s, tag='pyhash')
 
     # ---- the real code ---------------------------------------------------------------------------
     def build(self, text, variant):
@@ -238,6 +287,14 @@ class C02(Prop):
             return C.CMutableTransaction.from_tx(txfmt.to_tx(t, False))
         if variant == 'fi':
             return C.CTransaction.from_tx(txfmt.to_tx(t, True))
+        if variant == 'mx':
+            Z = b'\x00' * 32
+            ok = dict(t, lock=0, vin=[(Z, 0, sc, 0) for (_, _, sc, _) in t['vin']])
+            m = txfmt.to_tx(ok, True)
+            m.nLockTime = t['lock']
+            for i, (h, n, _, q) in zip(m.vin, t['vin']):
+                i.prevout.hash, i.prevout.n, i.nSequence = h, n, q
+            return m
         if variant == 'di':
             return C.CTransaction.deserialize(txfmt.to_tx(t, False).serialize())
         if variant == 'dm':
@@ -275,6 +332,10 @@ class C02(Prop):
             return self.obj_case(a[0], a[1])
         if op == 'c02.objpair':
             return self.pair_case(a[0], a[1], a[2])
+        if op == 'c02.objcross':
+            return self.cross_case(a[0], a[1], a[2], a[3])
+        if op == 'c02.pyhash':
+            return ','.join(str(hash(x)) for _, x in self.variants(a[0], a[1]))
         if op == 'c02.hdrhash':
             h = txfmt.to_header(txfmt.parse_header(a[0]))
             return bytes(h.GetHash()).hex()
@@ -432,9 +493,40 @@ class C02(Prop):
                 return 'inconsistent:stale-GetTxid'
         return '%d:%s:%s' % (want, bytes(ha).hex(), bytes(hb).hex())
 
+    def cross_case(self, ka, ta, kb, tb):
+        va, vb = self.variants(ka, ta), self.variants(kb, tb)
+        verdicts = set()
+        for lx, x in va[:3]:
+            for ly, y in vb[:3]:
+                e1, e2 = (x == y), (y == x)
+                if e1 is not e2 or (x != y) is e1 or (y != x) is e1:
+                    return 'inconsistent:%s:%s' % (lx, ly)
+                verdicts.add(e1)
+        if len(verdicts) != 1:
+            return 'inconsistent:class-dependent'
+        return '1' if verdicts.pop() else '0'
+
+    def agree(self, c, io, mo):
+        if c['op'] == 'c02.pyhash' and not io.startswith('err:') and not mo.startswith('err:'):
+            # the model replies leNat(bytes ++ [1]): read the hashed byte string back and apply CPython's hash
+            try:
+                n = int(mo, 16)
+                raw = n.to_bytes((n.bit_length() + 7) // 8, 'little')
+                if not raw or raw[-1] != 1:
+                    return False
+                want = str(hash(raw[:-1]))
+            except ValueError:
+                return False
+            return all(x == want for x in io.split(','))
+        if c['op'] == 'c02.ids' and len(c['args']) > 1 and c['args'][1] == 'mx':
+            # field values outside the wire range (assigned after construction) are outside the property's
+            # domain: which exception the code raises there is not constrained — only that it raises
+            return io == mo or (io.startswith('err:') and mo.startswith('err:'))
+        return io == mo
+
     def model_line(self, c):
         op, a = c['op'], c['args']
-        if op in ('c02.obj', 'c02.objpair'):
+        if op in ('c02.obj', 'c02.objpair', 'c02.objcross', 'c02.pyhash'):
             return c.line
         if op == 'c02.eq':
             return op + '\t' + a[0] + '\t' + a[1]
